@@ -77,7 +77,7 @@ var flowCallPrefixes = []string{
 	"Cache.", "defaultPolicy.", "sampledLFU.", "tinyLFU.", "lockedMap.", "shardedMap.", "expirationMap.",
 	"ringStripe.", "storeItem.", "Item.", "store.", "Time.", "time.", "atomic.",
 	// callbacks passed as parameters (canonical name of a func-typed variable) and helpers
-	"func", "close", "delete", "make", "storageBucket", "cleanupBucket", "trackAdmission",
+	"func", "close", "delete", "storageBucket", "cleanupBucket", "trackAdmission",
 }
 
 func relevantCall(txt string) bool {
